@@ -318,6 +318,54 @@ impl C08 {
                         }
                     }
                 }
+                // the jumping and consuming adaptors an iterator type may override: all call sequences over
+                // {next, nth(1), nth(n + 1) (a strict overshoot), len} of length n + 1, each followed by last()
+                let depth2 = n + 1;
+                for code in 0..4u64.pow(depth2 as u32) {
+                    let mut it = seg(x, *c).into_iter();
+                    let labels = labels_for(*c);
+                    let mut lit = seg(x, *c).map_semifinite(&sf(&labels)).ok_or("map_semifinite None")?.into_iter();
+                    let mut cursor = 0usize;
+                    let mut cc = code;
+                    for step in 0..depth2 {
+                        let op = cc % 4;
+                        cc /= 4;
+                        let jump = match op {
+                            0 => Some(0),
+                            1 => Some(1),
+                            2 => Some(n + 1),
+                            _ => None,
+                        };
+                        match jump {
+                            Some(k) => {
+                                let (g, gl) = if k == 0 { (it.next(), lit.next()) } else { (it.nth(k), lit.nth(k)) };
+                                if cursor + k < n {
+                                    let at = cursor + k;
+                                    let g = g.ok_or_else(|| format!("nth({}) after {} of {} is None", k, cursor, n))?;
+                                    ensure(g.table.0 == x[at] && g.target == *c, || format!("nth({}) after {} slices of {:?} = {:?}", k, cursor, x, g.table.0))?;
+                                    let gl = gl.ok_or("label nth() is None")?;
+                                    ensure(gl.0 .0 == x[at].iter().map(|&v| labels[v].clone()).collect::<Vec<_>>(), || format!("label nth({}) after {}", k, cursor))?;
+                                    cursor = at + 1;
+                                } else {
+                                    ensure(g.is_none() && gl.is_none(), || format!("nth({}) after {} of {} slices of {:?} is Some", k, cursor, n, x))?;
+                                    cursor = n;
+                                }
+                            }
+                            None => {
+                                let remaining = n - cursor;
+                                let got = catch(|| (ExactSizeIterator::len(&it), it.size_hint(), ExactSizeIterator::len(&lit), lit.size_hint())).map_err(|p| format!("len()/size_hint() after {} of {} slices (step {}) panicked: {}", cursor, n, step, p))?;
+                                ensure(got == (remaining, (remaining, Some(remaining)), remaining, (remaining, Some(remaining))), || format!("len/size_hint after {} of {} slices (jumps included) = {:?}", cursor, n, got))?;
+                            }
+                        }
+                    }
+                    let (l, ll) = (it.last(), lit.last());
+                    if cursor < n {
+                        ensure(l.map(|f| f.table.0) == Some(x[n - 1].clone()), || format!("last() after {} of {} slices of {:?}", cursor, n, x))?;
+                        ensure(ll.map(|f| f.0 .0) == Some(x[n - 1].iter().map(|&v| labels[v].clone()).collect::<Vec<_>>()), || format!("label last() after {} of {}", cursor, n))?;
+                    } else {
+                        ensure(l.is_none() && ll.is_none(), || format!("last() on an exhausted iterator over {:?} is Some", x))?;
+                    }
+                }
                 // collect() relies on the length report
                 let all: Vec<Vec<usize>> = seg(x, *c).into_iter().map(|f| f.table.0).collect();
                 ensure(all == *x, || "into_iter().collect()".into())?;
